@@ -48,7 +48,7 @@ STREAM_CLAUSES = {
     "C18": ["forward_integral", "forward_0<=n0<n1", "forward_flags_bool", "forward_storage_type",
             "forward_ram_disk_only_if_written", "forward_none_only_if_nothing_written",
             "reverse_n1>n0>=0", "copy_move_source_ram_or_disk",
-            "copy_move_destination_storage_type"],
+            "copy_move_destination_storage_type", "repr_evaluates_back"],
     "C17": ["valid_parameters_yield_complete_stream"],
     "C10": ["finalize_at_true_end_accepted"],
 }
